@@ -48,8 +48,3 @@ impl<T> Vec<T> {
     #[verifier::external_body]
     pub fn from_iter(e: &Env, it: VecIter<T>) -> (r: Self) ensures r@ == it.rem() { unimplemented!() }
 }
-/// `<[u8]>::copy_from_slice` on a fixed array: panics unless both have the same length
-#[verifier::external_body]
-pub fn vx_copy_from_slice<const N: usize>(dst: &mut [u8; N], src: &[u8])
-    ensures src@.len() == N, final(dst)@ == src@,
-{ dst.copy_from_slice(src) }
